@@ -460,8 +460,115 @@ Proof. intros Hwf. cbn [wf] in Hwf. rewrite forallb_forall in Hwf.
           destruct (Nat.eqb r l), (Nat.eqb c j); cbn [andb]; ring. }
       rewrite sum_add. f_equal. destruct (Nat.eqb c j); [rewrite (sum_delta_r m r (fun l => dat X i l * x)) by auto; reflexivity|symmetry; apply sum_zero].
 Qed.
+(* KronSum *)
+Definition sqposl (l : list op) := forallb (fun s => (0 <? fst s)%nat && Nat.eqb (fst s) (snd s)) (map shape l) = true.
+Definition ksgo (K : nat) (x0 : nat -> R) := fix go (l : list op) (P : nat) {struct l} : nat -> R :=
+  match l with
+  | [] => fun _ => r0
+  | m :: l' =>
+      let d := fst (shape m) in
+      let S := (prodcs l' * K)%nat in
+      let Z := mkarr d (P * S) (fun j col => x0 (((col / S) * d + j) * S + col mod S)%nat) in
+      let Y := fst (mm m) Z in
+      let rest := go l' (P * d)%nat in
+      fun idx => dat Y ((idx / S) mod d)%nat ((idx / (d * S)) * S + idx mod S)%nat + rest idx
+  end.
+Lemma matmat_KronSum ms X : matmat (KronSum ms) X =
+  memo (mkarr (fst (shape (KronSum ms))) (nc X) (fun i j => ksgo (nc X) (fun idx => dat X (idx / nc X)%nat (idx mod nc X)%nat) ms 1%nat (i * nc X + j)%nat)).
+Proof. reflexivity. Qed.
+Lemma fr_ksumR l : fr (ksumR (map facof l)) = prodrs l.
+Proof. induction l as [|m l IH]; [reflexivity|]. cbn [map ksumR ksum2 fr facof prodrs fold_right]. rewrite IH. reflexivity. Qed.
+Lemma fc_ksumR l : fc (ksumR (map facof l)) = prodcs l.
+Proof. induction l as [|m l IH]; [reflexivity|]. cbn [map ksumR ksum2 fc facof prodcs fold_right]. rewrite IH. reflexivity. Qed.
+Lemma sq_prod l : sqposl l -> prodrs l = prodcs l /\ (0 < prodcs l)%nat.
+Proof. unfold sqposl. induction l as [|m l IH]; cbn [map forallb prodrs prodcs fold_right]; intros H; [split; [reflexivity|lia]|].
+  apply andb_prop in H as [H1 H2]. apply andb_prop in H1 as [A B]. apply Nat.ltb_lt in A. apply Nat.eqb_eq in B.
+  destruct (IH H2) as [E P]. fold (prodrs l). fold (prodcs l). rewrite E, <- B. split; [reflexivity|nia]. Qed.
+Lemma ksgo_spec K x0 l : (0 < K)%nat -> Forall good l -> forallb wf l = true -> sqposl l ->
+  forall P p rho kap, (p < P)%nat -> (rho < prodcs l)%nat -> (kap < K)%nat ->
+  ksgo K x0 l P ((p * prodcs l + rho) * K + kap)%nat
+  = sum (prodcs l) (fun g => fmx (ksumR (map facof l)) rho g * x0 ((p * prodcs l + g) * K + kap)%nat).
+Proof.
+  intros HK. induction l as [|m l IH]; intros HF Hwf Hsq P p rho kap Hp Hrho Hkap.
+  - cbn [ksgo prodcs fold_right map ksumR zero11 fmx sum]. ring.
+  - inversion HF as [|? ? Hm HF']; subst. cbn [forallb] in Hwf. apply andb_prop in Hwf as [Wm Wl].
+    assert (Hsq' : sqposl l). { unfold sqposl in *. cbn [map forallb] in Hsq. apply andb_prop in Hsq; tauto. }
+    assert (Hd : (0 < fst (shape m))%nat /\ fst (shape m) = snd (shape m)).
+    { unfold sqposl in Hsq. cbn [map forallb] in Hsq. apply andb_prop in Hsq as [H _]. apply andb_prop in H as [A B].
+      apply Nat.ltb_lt in A. apply Nat.eqb_eq in B. tauto. }
+    destruct Hd as [Hd Hsqm]. destruct (sq_prod l Hsq') as [Erc HN'].
+    cbn [ksgo]. fold (ksgo K x0). cbn [prodcs fold_right] in *. fold (prodcs l) in *.
+    rewrite <- Hsqm in *.
+    set (d := fst (shape m)) in *. set (N' := prodcs l) in *. set (S := (N' * K)%nat).
+    assert (HS : (0 < S)%nat) by (unfold S; nia).
+    set (r := (rho / N')%nat). set (rho' := (rho mod N')%nat).
+    assert (Hr : rho = (r * N' + rho')%nat) by (unfold r, rho'; rewrite Nat.mul_comm; apply Nat.div_mod; lia).
+    assert (Hrho' : (rho' < N')%nat) by (apply Nat.mod_upper_bound; lia).
+    assert (Hr1 : (r < d)%nat) by (apply Nat.div_lt_upper_bound; lia).
+    clearbody r rho'. subst rho.
+    set (s := (rho' * K + kap)%nat). assert (Hs : (s < S)%nat) by (unfold s, S; nia).
+    set (idx := ((p * (d * N') + (r * N' + rho')) * K + kap)%nat).
+    assert (Eidx : idx = ((p * d + r) * S + s)%nat) by (unfold idx, S, s; ring).
+    assert (E1 : (idx / S = p * d + r)%nat) by (symmetry; apply Nat.div_unique with (r := s); [lia|rewrite Eidx; ring]).
+    assert (E2 : (idx mod S = s)%nat) by (symmetry; apply Nat.mod_unique with (q := (p * d + r)%nat); [lia|rewrite Eidx; ring]).
+    assert (E3 : (idx / (d * S) = p)%nat).
+    { assert (Hb : ((r + 1) * S <= d * S)%nat) by (apply Nat.mul_le_mono_r; lia).
+      symmetry. apply Nat.div_unique with (r := (r * S + s)%nat); [lia|rewrite Eidx; ring]. }
+    assert (E4 : ((p * d + r) mod d = r)%nat) by (rewrite Nat.add_comm, Nat.mod_add by lia; apply Nat.mod_small; lia).
+    rewrite E1, E2, E3, E4.
+    (* first term: the factor's product *)
+    set (Z := mkarr d (P * S) (fun j col => x0 (((col / S) * d + j) * S + col mod S)%nat)).
+    destruct (proj1 (Hm Wm) Z) as (F1&F2&F3); [cbn; congruence|]. unfold matmat in *.
+    rewrite F3; [|rewrite F1; cbn; exact Hr1| rewrite F2; cbn; nia].
+    cbn [spec dat]. unfold mmul. rewrite <- Hsqm. fold d.
+    (* rest: induction hypothesis *)
+    replace idx with (((p * d + r) * N' + rho') * K + kap)%nat by (unfold idx; ring).
+    rewrite (IH HF' Wl Hsq' (P * d)%nat (p * d + r)%nat rho' kap) by (auto; nia).
+    (* right-hand side *)
+    transitivity (sum d (fun j => den m r j * x0 (((p * d + j) * N' + rho') * K + kap)%nat)
+                  + sum N' (fun g' => fmx (ksumR (map facof l)) rho' g' * x0 (((p * d + r) * N' + g') * K + kap)%nat)).
+    { f_equal. apply sum_ext; intros j Hj. cbn [dat Z].
+      replace (p * S + s)%nat with (s + p * S)%nat by ring.
+      rewrite Nat.div_add, (Nat.div_small s S), Nat.add_0_l, Nat.mod_add, (Nat.mod_small s S) by lia.
+      replace ((p * d + j) * S + s)%nat with (((p * d + j) * N' + rho') * K + kap)%nat by (unfold S, s; ring). reflexivity. }
+    symmetry. rewrite sum_prod.
+    match goal with |- sum d ?F = _ =>
+      rewrite (sum_ext d F (fun j => den m r j * x0 (((p * d + j) * N' + rho') * K + kap)%nat
+                              + delta r j * sum N' (fun g' => fmx (ksumR (map facof l)) rho' g' * x0 (((p * d + j) * N' + g') * K + kap)%nat))) end.
+    2:{ intros j Hj.
+        match goal with |- sum N' ?F = _ =>
+        rewrite (sum_ext N' F (fun g' => delta rho' g' * (den m r j * x0 (((p * d + j) * N' + g') * K + kap)%nat)
+                                      + delta r j * (fmx (ksumR (map facof l)) rho' g' * x0 (((p * d + j) * N' + g') * K + kap)%nat))) end.
+        - rewrite sum_add, sum_mul_l. rewrite (sum_delta_l N' rho' (fun g' => den m r j * x0 (((p * d + j) * N' + g') * K + kap)%nat)) by auto. reflexivity.
+        - intros g' Hg'. cbn [map ksumR ksum2 fmx fr fc facof]. rewrite fr_ksumR, fc_ksumR, Erc. fold N'.
+          rewrite !Nat.div_add_l, (Nat.div_small g' N'), (Nat.div_small rho' N'), !Nat.add_0_r by lia.
+          rewrite (Nat.add_comm (j * N') g'), (Nat.add_comm (r * N') rho'), !Nat.mod_add, (Nat.mod_small g' N'), (Nat.mod_small rho' N') by lia.
+          replace ((p * (d * N') + (g' + j * N')) * K + kap)%nat with (((p * d + j) * N' + g') * K + kap)%nat by ring.
+          ring. }
+    rewrite sum_add. f_equal.
+    rewrite (sum_delta_l d r (fun j => sum N' (fun g' => fmx (ksumR (map facof l)) rho' g' * x0 (((p * d + j) * N' + g') * K + kap)%nat))) by auto.
+    reflexivity.
+Qed.
+Lemma kshape_sq l : sqposl l -> kshape (map shape l) = (prodcs l, prodcs l).
+Proof. intros H. induction l as [|m l IH]; [reflexivity|]. cbn [map kshape fold_right prodcs].
+  change (fold_right (fun s acc => (fst s * fst acc, snd s * snd acc)%nat) (1,1)%nat (map shape l)) with (kshape (map shape l)).
+  assert (H' : sqposl l). { unfold sqposl in *. cbn [map forallb] in H. apply andb_prop in H; tauto. }
+  rewrite (IH H'). cbn [fst snd]. fold (prodcs l).
+  unfold sqposl in H. cbn [map forallb] in H. apply andb_prop in H as [H _]. apply andb_prop in H as [_ B]. apply Nat.eqb_eq in B.
+  rewrite B. reflexivity. Qed.
 Lemma good_KronSum ms : Forall good ms -> good (KronSum ms).
-Proof. intros _ Hwf. cbn [wf] in Hwf. discriminate. Qed.
+Proof. intros HF. apply good_lt; [|reflexivity]. intros Hwf X HX. cbn [wf] in Hwf.
+  apply andb_prop in Hwf as [Hwf Hsq]. apply andb_prop in Hwf as [Hne Hwfs].
+  rewrite matmat_KronSum. apply aeq_memo_l. unfold spec. cbn [shape] in *. rewrite (kshape_sq ms Hsq) in *. cbn [fst snd] in *.
+  change (den (KronSum ms)) with (fmx (ksumR (map facof ms))).
+  repeat split; auto. cbn [nr nc dat]. intros i j Hi Hj.
+  set (K := nc X) in *. assert (HK : (0 < K)%nat) by lia.
+  replace (i * K + j)%nat with ((0 * prodcs ms + i) * K + j)%nat by ring.
+  rewrite (ksgo_spec K _ ms HK HF Hwfs Hsq 1%nat 0%nat i j) by (auto; lia).
+  unfold mmul. apply sum_ext; intros g Hg. f_equal.
+  replace ((0 * prodcs ms + g) * K + j)%nat with (j + g * K)%nat by ring.
+  rewrite Nat.div_add, (Nat.div_small j K), Nat.add_0_l, Nat.mod_add, (Nat.mod_small j K) by lia. reflexivity.
+Qed.
 
 
 (* ConcatV *)
